@@ -156,7 +156,7 @@ var netRelations = []string{"equal", "remote-ahead", "remote-ahead", "remote-beh
 // the receiver's refs are local remote-tracking refs; for push the sender is the local repository.
 func buildNet(c *fw.Case, env *fw.Env, p *netParams, rng *rand.Rand) (*netWorld, error) {
 	w := &netWorld{all: mon.NewMemStore()}
-	h, err := buildHistory(w.all, rng, histOpts{N: p.N, BaseRows: p.BaseRows, Roots: 2, Parents: p.Shape, RevertTo: p.RevertTo})
+	h, err := buildHistory(w.all, rng, histOpts{N: p.N, BaseRows: p.BaseRows, Roots: 2, Parents: p.Shape, RevertTo: p.RevertTo, Rekey: true})
 	if err != nil {
 		return nil, err
 	}
